@@ -102,13 +102,22 @@ def gen_crate(rng, base="c", root_name=None, max_files=5, depth=3, feats=(), bod
                 t.decls.append((decl_file, name, target))
                 gen_file(target, cdir, d + 1)
             return txt
-        if "cfg_if" in feats and k < 45:
+        if "cfg_if" in feats and k < 62:
             t.features.add("cfg_if")
             target, cdir = place(childdir, name)
             t.decls.append((decl_file, name, target))
             gen_file(target, cdir, d + 1)
-            return "cfg_if::cfg_if! {\n    if #[cfg(unix)] {\n        mod %s;\n    } else {\n        fn  nothing( ){ }\n    }\n}\n" % name
-        if "cfg_match" in feats and k < 52:
+            other = "fn  nothing( ){ }"
+            if budget[0] > 0 and names and rng.chance(60):
+                # a second declaration later in the same macro call
+                budget[0] -= 1
+                n2 = fresh()
+                t2, c2 = place(childdir, n2)
+                t.decls.append((decl_file, n2, t2))
+                gen_file(t2, c2, d + 1)
+                other = "mod %s;" % n2
+            return "cfg_if::cfg_if! {\n    if #[cfg(unix)] {\n        mod %s;\n    } else {\n        %s\n    }\n}\n" % (name, other)
+        if "cfg_match" in feats and k < 72:
             t.features.add("cfg_match")
             target, cdir = place(childdir, name)
             t.decls.append((decl_file, name, target))
